@@ -7,12 +7,14 @@ SEED=$1; DEMOCMD=$2; shift 2
 WT=/root/scratch/seedwt.$$
 git -C /repo worktree add -f -q $WT HEAD || exit 2
 trap 'git -C /repo worktree remove --force $WT' EXIT
-( cd $SEED/demo && find . -type f -name '*.go' ) | while read f; do mkdir -p $WT/$(dirname $f); cp $SEED/demo/$f $WT/$f; done
+if [ -n "${DEMODST:-}" ]; then mkdir -p $WT/$DEMODST; cp $SEED/demo/*.go $WT/$DEMODST/; else
+( cd $SEED/demo && find . -type f -name '*.go' ) | while read f; do mkdir -p $WT/$(dirname $f); cp $SEED/demo/$f $WT/$f; done; fi
 echo "== demo WITHOUT patch (expect pass)"; ( cd $WT && eval "$DEMOCMD" 2>&1 | tail -5 )
 git -C $WT apply $SEED/patch.diff || { echo "patch does not apply"; exit 2; }
 echo "== go build with patch"; ( cd $WT && go build ./... && echo build ok )
 echo "== demo WITH patch (expect fail)"; ( cd $WT && eval "$DEMOCMD" 2>&1 | tail -8 )
 ( cd $WT && find . -name 'zz_seed*' -delete )
+[ -n "${NOCHECK:-}" ] && exit 0
 for c in "$@"; do
   echo "== check $c on seeded tree"
   ( cd /verif && VERIF_REPO=$WT python3 verif.py check $c --tier quick 2>&1 | grep -E "VIOLATION|KNOWN|signature|INFRA|^\[C" | head -12 )
